@@ -360,25 +360,26 @@ def newSubLinks (db : Db) (parent : H) : List H → List ValueRow → List RowOp
       newSubLinks db parent seen rs
     else .subvalue ⟨r.hash, parent⟩ :: newSubLinks db parent (seen ++ [r.hash]) rs
 
-/-- File/Task rows of the subvalues (`_record_special_redun_values(subvalues, ...)`) -/
-def subSpecialOps (db : Db) : List H → List ValueRow → List RowOp
-  | _, [] => []
-  | seen, r :: rs =>
+/-- File/Task rows of the subvalues (`_record_special_redun_values(subvalues, ...)`; `seenF` / `seenT` are the
+hashes added to `existing_file_hashes` / `existing_task_hashes` earlier in the same call) -/
+def subSpecialOps (db : Db) : List H → List H → List ValueRow → List RowOp
+  | _, _, [] => []
+  | seenF, seenT, r :: rs =>
     match r.kind with
-    | .plain => subSpecialOps db seen rs
+    | .plain => subSpecialOps db seenF seenT rs
     | .task =>
-      if db.tasks.contains r.hash || seen.contains r.hash then subSpecialOps db seen rs
-      else .task r.hash :: subSpecialOps db (seen ++ [r.hash]) rs
+      if db.tasks.contains r.hash || seenT.contains r.hash then subSpecialOps db seenF seenT rs
+      else .task r.hash :: subSpecialOps db seenF (seenT ++ [r.hash]) rs
     | .file =>
-      if db.files.contains r.hash || seen.contains r.hash then subSpecialOps db seen rs
-      else .file r.hash :: subSpecialOps db (seen ++ [r.hash]) rs
+      if db.files.contains r.hash || seenF.contains r.hash then subSpecialOps db seenF seenT rs
+      else .file r.hash :: subSpecialOps db (seenF ++ [r.hash]) seenT rs
 
 /-- `_record_subvalues(subvalues, parent_value_hash)`: two commits (values + links, then File/Task rows) -/
 def recordSubvalues (parent : H) (subs : List ValueRow) (s : Sess) : Sess :=
   if subs.isEmpty then s
   else
     let s1 := (s.addAll (newSubValues s.view [] subs ++ newSubLinks s.view parent [] subs)).commit
-    (s1.addAll (subSpecialOps s1.view [] subs)).commit
+    (s1.addAll (subSpecialOps s1.view [] [] subs)).commit
 
 /-- a value to record: its own row and its (flattened) subvalues -/
 structure ValueSpec where
@@ -386,9 +387,24 @@ structure ValueSpec where
   subs : List ValueRow := []
   deriving DecidableEq, Repr
 
-/-- `record_value` -/
+/-- all rows of one value: its Value row, its File/Task row, new subvalue Values, links and their File/Task rows
+(each query sees the rows added before it: autoflush) -/
+def valueOps (db : Db) (x : ValueSpec) : List RowOp :=
+  let o1 := [RowOp.value x.row]
+  let d1 := applyOps db o1
+  let o2 := specialMissing d1 x.row
+  let d2 := applyOps d1 o2
+  if x.subs.isEmpty then o1 ++ o2
+  else
+    let o3 := newSubValues d2 [] x.subs ++ newSubLinks d2 x.row.hash [] x.subs
+    let d3 := applyOps d2 o3
+    o1 ++ o2 ++ o3 ++ subSpecialOps d3 [] [] x.subs
+
+/-- `record_value`.  Unrepaired: up to four commits (Value / its File-Task row / subvalues + links / their
+File-Task rows).  Repaired (`atomicValue`): one commit. -/
 def recordValue (v : Variant) (x : ValueSpec) (s : Sess) : Sess :=
   if hasValue s.view x.row.hash then s
+  else if v.atomicValue then (s.addAll (valueOps s.view x)).commit
   else recordSubvalues x.row.hash x.subs (recordValueCore v x.row s)
 
 def recordValues (v : Variant) (rs : List ValueSpec) (s : Sess) : Sess :=
